@@ -15,9 +15,15 @@ def _fresh(name):
 
 def handlers(emit, repo):
     def job_revdfs(job):
+        # "steps": the caller keeps ONE transition-list object and edits it in place between calls
+        steps = job.get("steps") or [{"tl": job["tl"], "finals": job["finals"]}]
+        shared = []
+        for st in steps:
+            shared[:] = [[("a", t - 1) for t in row] for row in st["tl"]]
+            revdfs_once(shared, [f - 1 for f in st["finals"]])
+
+    def revdfs_once(tl, finals):
         rd = _fresh("reverse_dfs")
-        tl = [[("a", t - 1) for t in row] for row in job["tl"]]
-        finals = [f - 1 for f in job["finals"]]
         try:
             table = rd.reverse_transition_list(tl)
             if not isinstance(table, dict):
@@ -278,6 +284,9 @@ def handlers(emit, repo):
                     before = set(listing(scratch))
                     sg.create_sg_from_board(b["moves"], b["rewards"], b["loose"], pr["rb"] / 1e6, pr["lb"] / 1e6,
                                             pr["tb"] / 1e6)
+                    if job.get("twice"):     # the same board written again over the first file
+                        sg.create_sg_from_board(b["moves"], b["rewards"], b["loose"], pr["rb"] / 1e6,
+                                                pr["lb"] / 1e6, pr["tb"] / 1e6)
                     new = sorted(set(listing(scratch)) - before)
                     path = new[0] if len(new) == 1 else path
                 else:
@@ -388,9 +397,11 @@ def handlers(emit, repo):
                         emit({"e": op["e"], "p": p, "ok": False, "etype": type(exc).__name__,
                               "board": {"moves": [], "rewards": [], "loose": []}})
                 elif op["e"] == "Main":
-                    # every run of the command line gets a directory of its own
-                    shutil.rmtree(os.path.join(scratch, "inputs"), ignore_errors=True)
-                    os.makedirs(os.path.join(scratch, "inputs"))
+                    # every run of the command line gets a directory of its own, except a
+                    # deliberate re-run ("again") with the same parameters in the same directory
+                    if not op.get("again"):
+                        shutil.rmtree(os.path.join(scratch, "inputs"), ignore_errors=True)
+                        os.makedirs(os.path.join(scratch, "inputs"))
                     before = listing(scratch)
                     args = [sys.executable, os.path.join(repo, "roberta_generator.py"),
                             "--seed", str(p["seed"]), "--width", str(p["width"]), "--length", str(p["length"]),
@@ -404,6 +415,8 @@ def handlers(emit, repo):
                         lines = [x for x in pr.stderr.decode(errors="replace").strip().split("\n") if x.strip()]
                         etype = lines[-1].split(":")[0].strip()[:60] if lines else "unknown"
                     new = sorted(set(after) - set(before))
+                    if op.get("again"):
+                        new = after          # the file of the first run must still be the only one
                     keys, board = [], {"moves": [], "rewards": [], "loose": []}
                     if pr.returncode == 0 and len(new) == 1:
                         try:
@@ -411,7 +424,8 @@ def handlers(emit, repo):
                         except Exception as exc:
                             keys = ["<" + type(exc).__name__ + ">"]
                         board = parse_depiction(new[0])
-                    emit({"e": "Main", "p": p, "rc": pr.returncode, "etype": etype, "before": before,
+                    emit({"e": "MainAgain" if op.get("again") else "Main", "p": p, "rc": pr.returncode,
+                          "etype": etype, "before": before,
                           "after": after, "keys": keys, "board": board})
         finally:
             os.chdir(cwd)
